@@ -142,6 +142,9 @@ async fn run(cfg: &Value, rounds: &[Vec<String>], sels: &[Vec<(String, usize)>],
     let brk_view = breaker.clone();
     let t1: SharedHealthTrigger = counter.clone();
     let t2: SharedHealthTrigger = Arc::new(breaker);
+    // a second wrapper built from a CLONE of the same separately built configuration (ctor 1 / 2): wrappers are
+    // independent of each other, whatever they were configured from; it is selected from between the selections below
+    let mut sib: Option<HealthCheckWrapper<usize, _>> = None;
     let mut b = match cfg["ctor"].as_u64().unwrap_or(0) {
         1 => {
             let mut cb = HealthCheckConfig::builder().interval(Duration::from_millis(INTERVAL)).initial_delay(Duration::ZERO).timeout(tmo);
@@ -150,6 +153,14 @@ async fn run(cfg: &Value, rounds: &[Vec<String>], sels: &[Vec<(String, usize)>],
             }
             let c = cb.failure_threshold(ft).success_threshold(sth).selection_strategy(strat).build();
             see(&c);
+            // (not with triggers registered: a cloned configuration rightly notifies the same trigger objects)
+            if !trig {
+                let mut sb = HealthCheckWrapper::builder().with_checker(|_r: &usize| async { HealthStatus::Healthy }).with_config(c.clone());
+                for r in 0..3usize {
+                    sb = sb.with_context(r, format!("s{}", r + 1));
+                }
+                sib = Some(sb.build());
+            }
             HealthCheckWrapper::builder().with_checker(checker).with_config(c)
         }
         2 => {
@@ -186,13 +197,27 @@ async fn run(cfg: &Value, rounds: &[Vec<String>], sels: &[Vec<(String, usize)>],
         ne += 1;
     }
     w.start().await;
+    if let Some(s2) = sib.as_ref() {
+        s2.start().await;
+    }
     settle().await;
     for (k, res) in rounds.iter().enumerate() {
         // until the k-th check of every resource has ended (bounded: a round lasts at most timeout + interval)
         let mut guard = 0;
+        let mut mid_done = false;
         while script.lock().unwrap().done.iter().any(|&d| d < k as u64 + 1) && guard < 60 {
             advance(1).await;
             guard += 1;
+            // in the middle of a round - some checks of it have ended, others are still running: what has ended is
+            // published already (one observation per round)
+            let fin: Vec<u64> = script.lock().unwrap().done.iter().map(|&d| if d >= k as u64 + 1 { 1 } else { 0 }).collect();
+            if !mid_done && fin.iter().any(|&f| f == 1) && fin.iter().any(|&f| f == 0) {
+                mid_done = true;
+                settle().await;
+                let det = w.get_health_details().await;
+                out.push(json!({"e":"mid","k":k,"res":res,"fin":fin,"status": det.iter().map(|d| st_name(d.status)).collect::<Vec<_>>()}).to_string());
+                ne += 1;
+            }
         }
         settle().await;
         let det = w.get_health_details().await;
@@ -221,6 +246,9 @@ async fn run(cfg: &Value, rounds: &[Vec<String>], sels: &[Vec<(String, usize)>],
         ne += 1;
         for (kind, m) in &sels[k] {
             for _ in 0..*m {
+                if let Some(s2) = sib.as_ref() {
+                    let _ = s2.get_healthy().await;
+                }
                 let got = if kind == "healthy" { w.get_healthy().await } else { w.get_usable().await };
                 out.push(json!({"e":"sel","kind":kind,"got": got.map(|x| x + 1).unwrap_or(0)}).to_string());
                 ne += 1;
@@ -228,6 +256,9 @@ async fn run(cfg: &Value, rounds: &[Vec<String>], sels: &[Vec<(String, usize)>],
         }
     }
     w.stop().await;
+    if let Some(s2) = sib.as_ref() {
+        s2.stop().await;
+    }
     ne
 }
 pub fn run_health(seed: u64, size: Size, out: &mut Vec<String>) -> (usize, usize) {
